@@ -6,7 +6,8 @@ patch=$(realpath "$1"); shift
 wt=$(mktemp -d /tmp/wt-mut-XXXXXX)
 rmdir "$wt"
 git -C /repo worktree add -q --detach "$wt" HEAD || exit 2
-trap 'git -C /repo worktree remove --force "$wt" >/dev/null 2>&1; rm -rf /tmp/verif-alt-out' EXIT
+VERIF_ALT_OUT=$(mktemp -d /tmp/verif-alt-XXXXXX); export VERIF_ALT_OUT  # private: several trials may run side by side
+trap 'git -C /repo worktree remove --force "$wt" >/dev/null 2>&1; rm -rf "$VERIF_ALT_OUT"' EXIT
 if ! git -C "$wt" apply "$patch"; then echo "patch does not apply"; exit 2; fi
 rc=0
 for id in "$@"; do
